@@ -94,6 +94,10 @@ func zzPickSel(label string, small bool) zzSel {
 // unusable or losing setting can sit between two others in the precedence order.
 func ZZ_C18_three() { zzC18(3, !nondet.Thorough()) }
 
+// ZZ_C18_single: a setting alone in its namespace (another namespace holds one more): in error
+// without a reference or with an unusable selector, valid otherwise, whatever the nodes.
+func ZZ_C18_single() { zzC18(1, false) }
+
 // ZZ_C18_mutex: two settings over the full alphabets.
 func ZZ_C18_mutex() { zzC18(2, false) }
 
@@ -242,6 +246,11 @@ func zzC18(nSettings int, small bool) {
 		}
 	}
 	nondet.Observe("s0", string(status(0).Status))
+	if nSettings == 1 {
+		nondet.Reach("C18.single.unusable-in-error", !sels[0].usable() && hasRef[0] && status(0).Status == datadoghqv1alpha1.ExtendedDaemonsetSettingStatusError)
+		nondet.Reach("C18.single.valid", sels[0].usable() && hasRef[0] && status(0).Status == datadoghqv1alpha1.ExtendedDaemonsetSettingStatusValid)
+		return
+	}
 	nondet.Observe("s1", string(status(1).Status))
 	nondet.Reach("C18.conflict", status(0).Status == datadoghqv1alpha1.ExtendedDaemonsetSettingStatusError && hasRef[0] && sels[0].usable() && status(1).Status == datadoghqv1alpha1.ExtendedDaemonsetSettingStatusValid)
 	if !small {
